@@ -182,6 +182,19 @@ def gen_plan(seed, tier, index=0, avoid=()):
             steps.append(st)
     if not any(s["op"] == "diff" for s in steps):
         steps.append({"op": "diff", "noise": "", "read_errors": {}, "nested": []})
+    if rng.random() < 0.04 and h >= 2:
+        # the content moved up before the first render and comes back down while queries are under way: every
+        # overtaken query moves top_usable_row further down, past the bottom of the screen; then a render and a query
+        # (the history of finding 14)
+        cfg["start_row"] = h - 1
+        steps = [{"op": "move", "d": -rng.randint(1, h)}]
+        for _ in range(rng.randint(2, 4)):
+            steps.append({"op": "diff", "noise": "", "read_errors": {}, "c1": False,
+                          "nested": [{"at_read": rng.randint(1, 5), "move": 1}]})
+        n = rng.randint(1, 2)
+        steps.append({"op": "render", "rows": [gen.gen_row(rng, rng.randint(0, w), 0.7) for _ in range(n)],
+                      "cursor": [rng.randrange(n), rng.randrange(w)]})
+        steps.append({"op": "diff", "noise": "", "read_errors": {}, "nested": [], "c1": False})
     return {"prop": PROP, "seed": seed, "mode": "B", "cfg": cfg, "steps": steps, "enumerate": True}
 
 
